@@ -135,7 +135,8 @@ def main():
     lines = []
     if violations:
         # report the smallest few distinct failures
-        violations.sort(key=lambda f: len(json.dumps(f, default=str)))
+        # (a failing input inside the property's domain is the better witness than a smaller one outside it)
+        violations.sort(key=lambda f: (not f.get("in_domain", True), len(json.dumps(f, default=str))))
         seen = set()
         for f in violations:
             key = (f.get("function"), f.get("kind"), f.get("clause"))
